@@ -223,7 +223,7 @@ def directed_probes():
 
 
 def coq_case(av, flat, trace):
-    obs = "; ".join(f"({COQ_B.get(b, 'Matplotlib') if b in COQ_B else 'BADVALUE'}, {o})" for b, o in trace)
+    obs = "; ".join(f"({COQ_B[b] if isinstance(b, str) and b in COQ_B else 'BADVALUE'}, {o})" for b, o in trace)
     return f"mkccase {'true' if av else 'false'} [{'; '.join(flat)}] [{obs}]"
 
 
